@@ -57,6 +57,12 @@ CLAIMS = {
          "_SELECT KEY / UNIQUE directives naming unknown columns through sql.NewTable and sqlcrud.generateTable. Sweeps: typescript, dart (incl. Generate), SQL validators, gounions, randdata on every analysis.Type skeleton "
          "of depth<=1 (quick) / 2 (thorough) over the nine node kinds. NOT decided: the full statement over all well-typed packages (createType on arbitrary go/types graphs, unbounded recursion, packages.Load).",
          "DESIGN.md section 4 (C18)", ""),
+ "C13": ("Decides a bounded kernel. The route file, a fake echo package and an imported package are given as source text, parsed and type-checked by the real go/parser and go/types inside the engine (and natively in the twin); the syntax trees are copied into engine values "
+         "with a two-way map so that the interpreted httpapi code consults the real types.Info, types.Eval and types.ExprString. Route files register 1 (2) routes over: 4 verbs; URL as literal, package-constant concatenation, imported-constant concatenation, local constant; "
+         "handler as method, function, function of an imported package, function literal, form handler (file, value, JSON field, blob return), bool query parameter. Asserted: one endpoint per registration in source order (a non-route call is ignored), verb, constant-folded URL, "
+         "contract name, bound input, JSON/blob return, query parameters with types, form values/file/JSON field with its resolved type; the prefix filter keeps exactly the routes whose URL has a SYMBOLIC prefix (solver-decided). Mostly a structural catalogue executed by the engine. "
+         "NOT decided: arbitrary route files, other frameworks, generic handlers.",
+         "DESIGN.md section 6c (C13)", ""),
  "C12": ("Decides a bounded kernel of the statement on Analysis.handleType/createType/handleStructFields/NewTime with the real go/types objects: root struct with 1..1(2) fields whose types have depth<=1 over basic kinds, the root itself (self recursion), a second struct "
          "referring back into the world (mutual recursion), an enum, a union, type N []S, time.Time, a user-defined time type whose name has a symbolic part (date detection decided by the solver), a named int64, slices, arrays (length 0..2), maps, pointers. Asserted: no runtime error, "
          "termination (step bound = unwinding assertion), every reachable type registered and classified with the kind/length/key/element/fields/tags go/types reports, every node converting back to an identical Go type (time and date predefined, also inside composites). "
@@ -120,7 +126,6 @@ CLAIMS = {
 }
 
 NA = {
- "C13": "input is Go source text walked through go/ast with types.Eval per path expression: would need go/parser and the type checker under the solver (DESIGN.md section 6)",
 }
 PENDING = "no check registered yet: harnesses for this property are not built/validated at this commit (build order: DESIGN.md section 9)"
 
